@@ -320,15 +320,10 @@ impl Lease for TtlLease {
             return false;
         }
 
-        // Quick check: iterate first 10 entries
-        // DashMap::iter().take(10) is cheap (early termination)
-        for entry in self.key_to_expiry.iter().take(10) {
-            if *entry.value() <= now {
-                return true;
-            }
-        }
-
-        false
+        // Stops at the first expired entry. Every entry has to be looked at before answering
+        // "none": sampling a fixed number of entries let an expired key outside the sample
+        // survive every cleanup run for as long as the sampled ones stayed valid.
+        self.key_to_expiry.iter().any(|entry| *entry.value() <= now)
     }
 
     /// Get total number of keys with active leases.
